@@ -158,12 +158,13 @@ func StoreModel() *Model {
 		Rels: []RelDef{
 			{T: "do", R: "viewer", Rw: &Rewrite{K: "this"}, Restr: []Restr{{T: "user"}}}, // a type whose name is a prefix of another's
 			{T: "group", R: "member", Rw: &Rewrite{K: "this"}, Restr: []Restr{{T: "user"}, {T: "user", Cond: "c1"}}},
+			{T: "group", R: "admin", Rw: &Rewrite{K: "this"}, Restr: []Restr{{T: "user"}}}, // sibling usersets group:1#member / group:1#admin differ in the user relation only
 			{T: "folder", R: "parent", Rw: &Rewrite{K: "this"}, Restr: []Restr{{T: "folder"}}},
 			{T: "folder", R: "viewer", Rw: &Rewrite{K: "this"}, Restr: []Restr{{T: "user"}}},
 			{T: "doc", R: "parent", Rw: &Rewrite{K: "this"}, Restr: []Restr{{T: "folder"}}},
 			{T: "doc", R: "editor", Rw: &Rewrite{K: "this"}, Restr: []Restr{{T: "user"}}},
 			{T: "doc", R: "viewer", Rw: &Rewrite{K: "union", Ch: []*Rewrite{{K: "this"}, {K: "computed", Rel: "editor"}, {K: "ttu", TS: "parent", Rel: "viewer"}}},
-				Restr: []Restr{{T: "user"}, {T: "user", Cond: "c1"}, {T: "group", Rel: "member"}, {T: "user", WC: true}}},
+				Restr: []Restr{{T: "user"}, {T: "user", Cond: "c1"}, {T: "group", Rel: "member"}, {T: "group", Rel: "admin"}, {T: "user", WC: true}}},
 		},
 	}
 }
@@ -175,6 +176,7 @@ var ValidKeys = []Tuple{
 	tp("doc:1", "viewer", "user:a"), tp("doc:1", "viewer", "user:b"), tp("doc:1", "viewer", "group:1#member"),
 	tp("doc:1", "viewer", "user:*"), tp("doc:2", "viewer", "user:a"), tp("group:1", "member", "user:a"),
 	tp("doc:1", "parent", "folder:1"), tp("folder:1", "viewer", "user:a"), tp("do:1", "viewer", "user:a"),
+	tp("doc:1", "viewer", "group:1#admin"),
 }
 
 // condVariants returns the tuple with each admissible / inadmissible condition variant.
